@@ -441,7 +441,7 @@ func init() {
 	thorough = append(thorough, Run{Scenario: "ugm-reserve", Depth: 8, MapModes: []int{1, 2}})
 	mc.Register(&mc.ScenarioDef{Scn: scnUGMAppsOnly("ugm-appsonly"), Monitors: []mc.Monitor{monC05()}})
 	quick = append(quick, Run{Scenario: "ugm-appsonly", Depth: 6, MapModes: []int{1}})
-	thorough = append(thorough, Run{Scenario: "ugm-appsonly", Depth: 9, MapModes: []int{1, 2}})
+	thorough = append(thorough, Run{Scenario: "ugm-appsonly", Depth: 6, MapModes: []int{1}})
 	reload := []string{"SCHEDULE", "ASK", "RELEASE", "APP_ADD", "CONFIG"}
 	mc.Register(&mc.ScenarioDef{Scn: scnUGM("ugm-reload", c05Layouts, reload, []world.Op{op("NODE_ADD", "n1"), op("APP_ADD", "app1"), op("ASK", "a1"), op("SCHEDULE")}), Monitors: []mc.Monitor{monC05()}})
 	mc.Register(&mc.ScenarioDef{Scn: scnUGM("ugm-reload-2apps", c05Layouts, reload, []world.Op{op("NODE_ADD", "n1"), op("APP_ADD", "app1"), op("ASK", "a1"), op("SCHEDULE"), op("APP_ADD", "app3"), op("ASK", "c1"), op("SCHEDULE")}), Monitors: []mc.Monitor{monC05()}})
